@@ -15,6 +15,7 @@ ResultEv(e) ==
      THEN "C17.partition"
   ELSE IF SetOf(e.bad) # BadIdx(r) THEN "C17.disqualify"
   ELSE IF e.truthy # Truthy(r) THEN "C17.truthy"
+  ELSE IF "good2" \in DOMAIN e /\ (e.good2 # e.good \/ e.bad2 # e.bad \/ e.truthy2 # e.truthy \/ e.len # Len(r)) THEN "C17.partition"   \* read twice
   ELSE "ok"
 \* end to end: a real verification. e.n = signatures examined; e.wrong[k]; e.expired; e.issues[k] (bits)
 E2E(e) ==
